@@ -386,6 +386,17 @@ func describe(r request, v int64) string {
 	return fmt.Sprintf("STATUS %s allocated pods=%d", qname(r.q.name), r.q.alloc)
 }
 
+// safeStep is false when the code under test panicked on the request
+func safeStep(w *world, r request) (ok bool) {
+	defer func() {
+		if recover() != nil {
+			ok = false
+		}
+	}()
+	w.step(r)
+	return true
+}
+
 type emitFn func(id string, sel int, in []int64, kind string, nontrivial bool, desc any)
 
 // run a prepared history once to describe it and decide non-triviality
@@ -393,6 +404,13 @@ func finish(h history, id, kind string, emit emitFn) {
 	w := newWorld(h.cfg, h.q0)
 	descs := []string{}
 	changed, deep := 0, false
+	defer func() {
+		// a panic of the code under test while describing the history: Run will meet it
+		// again inside the per-case recover of vh and report it with this input
+		if x := recover(); x != nil {
+			emit(id, 1, h.enc(), kind, true, map[string]any{"maxDepth": h.cfg.maxDepth, "requests": descs, "panic": fmt.Sprint(x)})
+		}
+	}()
 	for _, r := range h.reqs {
 		before := fmt.Sprint(w.dump())
 		v := w.step(r)
@@ -479,8 +497,10 @@ func gen(rng *vh.Rng, n int, emit func(id string, sel int, in []int64, kind stri
 		for k := 0; k < steps; k++ {
 			g.clean = k < warm
 			req := g.nextRequest(&last)
-			g.w.step(req)
 			h.reqs = append(h.reqs, req)
+			if !safeStep(g.w, req) {
+				break
+			}
 		}
 		finish(h, fmt.Sprintf("hist-%d", i), kind, emit)
 	}
